@@ -18,6 +18,14 @@ CHECKS = {
          "CTX family and F7 are known findings", "TLA+ trace validation of segment events"),
  "C19": (MC, "incremental build vs at-once build, rebuild with known roots, and edit/reload histories on TLC-enumerated worlds; equality evaluated by TLC on the projected graphs", "4.5, 7 C19",
          "CTX family is a known finding", "TLA+ trace validation of incr/rebuild/reload events"),
+ "C03": (MC, "fault enumeration through the model: TLC enumerates worlds in which every specifier answers with every response kind (module, missing, loader error, external, redirect chains 0..14 and cycles, redirect limit 0..12); every terminal state is replayed and entries, referrers, pending slots and panics compared; seeded registry worlds with faulted metadata / manifests / content loads are built with full instrumentation and every build validated by TLC (failed load => error entry of that specifier, nothing pending, entries only for requested specifiers, referrer present)", "4.3, 7 C03",
+         "fault placements in registry worlds are sampled (seeded), exhaustive for the URL profiles; decode/parse errors carry no referrer by construction", "TLC fault enumeration replayed + TLA+ trace validation of faulted registry builds"),
+ "C05": (MC, "every loader call, lockfile read and write of seeded registry + remote worlds (lockfile absent / matching / wrong, tampered bytes and manifests, stale caches, redirects, cache-only probes) is a trace event; TLC checks per call that the known checksum is presented, and at the end that rejected content is not admitted, the retry discipline, rejected checksummed redirects and exact, non-overwriting lockfile writes", "4.6, 7 C05",
+         "SHA-256 values are computed by the harness and compared as tokens; F9 is a known finding", "TLA+ trace validation of loader/locker events (T_Jsr)"),
+ "C06": (MC, "function level: TLC enumerates the whole bounded domain of resolve_version (registries x requirements x already-selected x cached x cutoff), proves tiers-as-coded == property statement at design level and every combination is replayed into the real function; graph level: every on_resolve event of registry-world builds is validated in order against the statement with the selections made so far", "4.6, 7 C06",
+         "requirement matching is deno_semver's (calibrated table)", "TLC-enumerated domain replayed into resolve_version + trace validation of on_resolve events"),
+ "C07": (MC, "for every built registry world TLC checks: jsr: specifiers redirect to the file the selected version's export map names, unknown-export errors list the manifest's exports, mappings follow resolutions, exports used, per-package jsr:/npm: requirements (sound and complete), URL<->name@version attribution", "4.6, 7 C07",
+         "F18 is a known finding; registry worlds are seeded random", "TLA+ trace validation of built package tables (T_Jsr)"),
 }
 NA = []
 m = {"version": 1, "setup_cmd": "./check setup",
